@@ -65,12 +65,12 @@ def handle (line : String) : String :=
     match parseHex h with
     | none => "bad-op"
     | some bs =>
-      match printAxml (fun _ _ => lit "?") bs with
+      match analyseFile (fun _ _ => lit "?") bs with
       | .error e => "exc " ++ e
-      | .ok (valid, t) =>
-        let a := analyse (if valid then t else none)
-        -- a manifest that is not valid makes `_apk_analysis` return before the permission tables are loaded
-        match (if valid then a.ctorRaises else some false) with
+      | .ok a =>
+        -- a manifest that is not valid (no root: the printer's result is dropped) makes `_apk_analysis` return before the
+        -- permission tables are loaded; `ctorRaises` is `some false` on an analysis without root
+        match a.ctorRaises with
         | some true => "exc ValueError"
         | some false => showAnalysis a
         | none => "unmodelled"
